@@ -40,6 +40,13 @@ def classify(events, seg, exp):
     sig = {"event": e.get("ev"), "tag": tag_of(exp), "cmd": e.get("name", ""), "class": "other"}
     if e.get("ev") == "cmd":
         parts = {hdr["part"][k - 1] for k in e.get("ks", [])}
+        poison = set(hdr.get("poison", []))
+        if e.get("name") == "plset" and poison & set(e.get("ks", [])) and len(parts) > 1:
+            refusing = {hdr["part"][k - 1] for k in e["ks"] if k in poison}
+            want = ["ERR" if hdr["part"][k - 1] in refusing else "OK" for k in e["ks"]]
+            if not e.get("err") and sorted(e.get("oks", [])) == sorted(want) and e.get("oks") != want:
+                sig["class"] = "partial-failure-status-order"
+                return sig
         if len(parts) > 1:
             sig["class"] = "keys-span-partitions"
         elif parts and not parts <= set(hdr["hosted"]):
@@ -98,8 +105,8 @@ def _run(ctx):
 
     # ---------------------------------------------------------------- (A) the design
     # quick: key sequences up to length 2, thorough: up to length 3 (all mappings over 3 keys in both)
-    jobs = ([("MC_ZRoute_q.cfg", "main"), ("MC_ZRoute_part_q.cfg", "main2")] if quick else
-            [("MC_ZRoute.cfg", "main"), ("MC_ZRoute_part.cfg", "main2")]) + [(c, inv) for c, inv in MUTANTS.items()]
+    jobs = ([("MC_ZRoute_q.cfg", "main"), ("MC_ZRoute_part_q.cfg", "main2"), ("MC_ZRoute_refused.cfg", "main3")] if quick else
+            [("MC_ZRoute.cfg", "main"), ("MC_ZRoute_part.cfg", "main2"), ("MC_ZRoute_refused.cfg", "main3")]) + [(c, inv) for c, inv in MUTANTS.items()]
 
     def mc(job):
         cfg, inv = job
@@ -132,6 +139,7 @@ def _run(ctx):
             ("map", ["-mode", "map", "-seed", seed, "-keys", "160"]),
             ("serve-general", ["-mode", "serve", "-seed", seed, "-p", "2,3,8", "-steps", "120", "-eng", "mem"]),
             ("serve-isolate-crossmget", ["-mode", "serve", "-seed", seed, "-p", "2,3", "-steps", "50", "-eng", "mem", "-crossmget"]),
+            ("serve-isolate-plsetfail", ["-mode", "serve", "-seed", str(ctx.seed + 5), "-p", "2,3", "-steps", "50", "-eng", "mem", "-plsetfail"]),
         ]
     else:
         stages = [
@@ -140,6 +148,7 @@ def _run(ctx):
             ("serve-general-pebble", ["-mode", "serve", "-seed", str(ctx.seed + 11), "-p", "2,3,5", "-steps", "300", "-eng", "pebble"]),
             ("serve-general-2", ["-mode", "serve", "-seed", str(ctx.seed + 23), "-p", "1,4,7", "-steps", "400", "-eng", "mem"]),
             ("serve-isolate-crossmget", ["-mode", "serve", "-seed", seed, "-p", "2,3,8", "-steps", "120", "-eng", "mem", "-crossmget"]),
+            ("serve-isolate-plsetfail", ["-mode", "serve", "-seed", str(ctx.seed + 5), "-p", "2,3,8", "-steps", "150", "-eng", "mem", "-plsetfail"]),
         ]
     st = dict(map_lines=0, map_evaluations=0, map_vectors_nonconstant=0, servers=0, commands=0, spanning=0, distinct_spanning=0,
               rejected_unhosted=0, placements=0, mismatches=0, selftest={}, runs=[])
@@ -280,7 +289,7 @@ def _run(ctx):
         "one server process hosts the partitions (single-replica raft groups); forwarding between data nodes does not exist in the "
         "code base (a node that does not host the partition rejects), so a cluster of several servers adds nothing to routing",
         "general MGETs stay within one partition (known finding route-mget-first-key); stage serve-isolate-crossmget produces the trigger",
-        "PLSET statuses are emitted per partition in map-iteration order; since every status is OK unless a partition fails this is "
-        "not observable without injected failures and is not decided here",
+        "general PLSETs never contain a pair that a partition refuses (open finding route-plset-status-order: statuses grouped by "
+        "partition instead of argument order); stage serve-isolate-plsetfail produces the trigger (a key longer than MaxKeySize)",
         "keys with an empty table name are refused by the server as invalid and are only part of the pure mapping exploration",
     ])
